@@ -182,7 +182,7 @@ def run_columns(ctx):
                     n["content"] = rng.choice([b"", b"#!/bin/sh\nexit 0\n", b"no trailing newline", b"a\nb\nc\n", bytes(range(256)) * 3, b"x" * 70000 + b"\n", b"#", b"\n" * 9000])
                     n["size"] = None
                     if rng.random() < 0.3:
-                        n["mtime"] = rng.choice([0, 86399, 951782400, 1709164800, 2000000000])
+                        n["mtime"] = rng.choice([0, 86399, 951782400, 1709164800, 2000000000, -1, -1.5, -86400.25, -2208988799.75, 1709164799.999])      # also before the epoch, with a sub-second part (floor, not truncation)
                     if rng.random() < 0.15:
                         n["owner"] = rng.choice([(12345, 54321), (65534, 65534), (1, 1)])
                 elif n["kind"] == "dir":
